@@ -717,6 +717,10 @@ class Interp:
             return {k: self.merge_val(c, a[k], b[k], n) for k in a}
         if a == b:
             return a
+        if a is None and is_expr(b):
+            return mkif(c, ('nan',), b)      # a path that falls off the end of a function returns no number
+        if b is None and is_expr(a):
+            return mkif(c, a, ('nan',))
         if isinstance(a, Arr) and is_expr(b):
             return mkif(c, ('nan',), b)
         if isinstance(b, Arr) and is_expr(a):
